@@ -381,7 +381,7 @@ pub fn run(cfg: &Cfg) -> Report {
         if gen::adjacent_orbits(&s).len() <= 3 {
             gen::for_all_branchings(&s, &|_, _| vec![1, 2, 3, 4], &mut |x| bases.push(x.clone()));
         } else {
-            for _ in 0..cfg.tier.pick(10, 40) {
+            for _ in 0..cfg.tier.pick(20, 40) {
                 let mut x = s.clone();
                 for (i, _, members, _) in gen::adjacent_orbits(&s) {
                     let v = *rng0.pick(&[1usize, 1, 2, 3, 4]);
@@ -393,12 +393,12 @@ pub fn run(cfg: &Cfg) -> Report {
             }
         }
     }
-    let kmax = cfg.tier.pick(4, 6);
+    let kmax = cfg.tier.pick(5, 6);
     let ctx = par_items(cfg, &bases, |ctx, idx, b| {
         let mut rng = Rng::stream(seed, 0x05_0000 + idx as u64);
         judge_oriented(ctx, b);
         let k = if b.n * (b.dim + 1) <= 9 { kmax } else { kmax - 1 };
-        if idx % cfg.tier.pick(3, 1) == 0 {
+        if idx % cfg.tier.pick(2, 1) == 0 {
             judge_covers(ctx, b, k, 600_000);
         }
         if idx % 4 == 1 {
@@ -444,7 +444,7 @@ pub fn run(cfg: &Cfg) -> Report {
 
     // many multi-generator, long-word subgroup covers of the larger finite groups (coincidence cascades)
     let heavy = ["<1.1:1:1,1,1:3,5>", "<1.1:1 3:1,1,1,1:3,3,3>", "<1.1:1 3:1,1,1,1:4,3,3>", "<1.1:2:2,1 2,1 2:2,5 5>"];
-    let per = cfg.tier.pick(25, 250);
+    let per = cfg.tier.pick(60, 250);
     let ctx = crate::monitor::par_range(cfg, heavy.len() * 60, |ctx, k| {
         let b = msym_from_text(heavy[k % heavy.len()]).unwrap();
         let mut rng = Rng::stream(seed, 0x05_a000 + k as u64);
